@@ -496,9 +496,11 @@ def registry(E):
 def new_symbolic_queue(E, cls, name, maxsize=0):
     """Queue object holding an ARBITRARY finite content: ids arr[h..t-1] (pre-existing items have ids <= 0)."""
     nm = E.path.fresh_name(name)
-    arr = z3.Array(nm + '.arr', z3.IntSort(), z3.IntSort())
-    h = z3.Int(nm + '.h')
-    t = z3.Int(nm + '.t')
+    # the names go through fresh_name: a contract that later havocs the queue with fresh_name('<name>.h') must get a NEW constant
+    # (a name collision would silently turn the havoc into the identity and verify only the first iteration)
+    arr = z3.Array(E.path.fresh_name(nm + '.arr'), z3.IntSort(), z3.IntSort())
+    h = z3.Int(E.path.fresh_name(nm + '.h'))
+    t = z3.Int(E.path.fresh_name(nm + '.t'))
     E.path.add(z3.And(h >= 0, t >= h))
     i = z3.Int('q.i')
     # ids of pre-existing items are non-positive, so they never alias objects registered on this path
